@@ -93,6 +93,7 @@ EXPECTED_PROBES = [
     "probe.q_answer_while_copy_in_transit", "probe.q_late_answer_while_pending",
     "probe.q_redelivery_event_skipped_after_poll", "probe.q_redelivered_to_other_consumer",
     "probe.q_limit_exhausted_by_timeout", "probe.q_unsub_with_delivery_in_transit",
+    "probe.q_request_after_skipped_timer", "probe.q_request_refused_timer_outstanding",
     "probe.t_positive_latency_received", "probe.t_unsubscribed_during_fanout",
     "probe.t_active_set_changed", "probe.t_resubscribed", "probe.l_rebalance_multi", "probe.l_retention_expired",
     "probe.l_commit_smaller", "probe.l_churn_during_poll", "fault.crash", "fault.pause",
@@ -415,6 +416,8 @@ class QueueWorld:
         self.expect = []         # delivery expectations
         self.open = []
         self.last_consumer = {}
+        self.outstanding = collections.Counter()   # message id -> redelivery timers returned by the queue, not yet fired
+        self.skipped_timer = set()                 # message ids whose redelivery timer fired after a poll had taken them
         self.req_count = {}      # message id -> attempts counted when the last redelivery was requested
         self.stale = set()
         self.receipts = 0
@@ -525,7 +528,24 @@ class QueueWorld:
         if ev is not None:
             self.pr["redelivery_requested"] += 1
             self.req_count[mid] = cnt
+            self.outstanding[mid] += 1
+            if mid in self.skipped_timer:
+                self.pr["request_after_skipped_timer"] += 1
             return [ev]
+        if where == "in-flight" and cnt < self.limit and q.get_message(mid) is not None:
+            # the queue refused to schedule a redelivery of an unacknowledged in-flight message under its limit
+            if self.outstanding[mid] <= 0:
+                self._viol("requested-redelivery-delivers", "redelivery-request-refused-although-no-redelivery-timer-is-outstanding",
+                           f"schedule_redelivery(message #{idx}) returned None at {self.now_ns}ns: the message is in flight "
+                           f"(attempt {cnt}, max_redeliveries={self.limit}), unacknowledged, and every redelivery timer the "
+                           f"queue handed out for it has already fired (timer skipped after an early poll: "
+                           f"{mid in self.skipped_timer}); it can never be redelivered or dead-lettered")
+            self.pr["request_refused_timer_outstanding"] += 1
+            n = md.get("retry", 0)
+            if n < 8:       # a real ack-timeout sweeper asks again
+                md2 = dict(md, retry=n + 1)
+                return [Event(time=self.watchdog.now + Duration(self.ack_timeout_ns), event_type="timeout",
+                              target=self.watchdog, context={"metadata": md2})]
         return None
 
     # ---- oracle: evaluated after every engine event ------------------------
@@ -537,6 +557,8 @@ class QueueWorld:
         first = not isinstance(ev, ProcessContinuation)
         is_poll = first and ((ev.event_type == "poll" and ev.target is self.q) or ev.target is self.poller)
         is_redelivery = first and ev.event_type == "message_redelivery" and ev.target is self.q
+        if is_redelivery:
+            self.outstanding[ev.context.get("message_id")] -= 1
         top = _stale_top(self.sim, now, "message_delivery")
         if top is not None:
             self.stale.add((top.context["payload"].context["metadata"]["i"], top.target.name))
@@ -557,6 +579,7 @@ class QueueWorld:
                            f"{self.prev_consumers} consumer(s) subscribed (head of pending: {head!r}, ghost={ghost})")
             if is_redelivery and initiated == 0:
                 self.pr["redelivery_event_skipped"] += 1
+                self.skipped_timer.add(ev.context.get("message_id"))
             if is_redelivery and initiated == 0 and self.prev_consumers > 0:
                 mid = ev.context.get("message_id")
                 i = self.idx_of.get(mid)
@@ -733,6 +756,8 @@ def run_queue(sc):
         "probe.q_redelivered_to_other_consumer": int(pr["redelivered_to_other_consumer"] > 0),
         "probe.q_limit_exhausted_by_timeout": int(pr["limit_exhausted_by_timeout"] > 0),
         "probe.q_unsub_with_delivery_in_transit": int(pr["unsub_with_delivery_in_transit"] > 0),
+        "probe.q_request_after_skipped_timer": int(pr["request_after_skipped_timer"] > 0),
+        "probe.q_request_refused_timer_outstanding": int(pr["request_refused_timer_outstanding"] > 0),
         "q_deliveries_counted": len(qw.expect), "q_receipts": qw.receipts, "q_publish_refused": qw.refused,
         "q_redelivery_requests": pr["redelivery_requested"], "budget_runs": int(status == "budget"),
     }
